@@ -122,6 +122,8 @@ package aml
 //@   ensures contained: inTable(rd(p), s)
 //@   ensures start: len(s) > 0 ==> dataptr(s) == dataptr(p.r.data) + uintptr(old(p.r.offset))
 //@   ensures okstr: res == parseResultOk ==> old(p.r.offset) < p.r.pkgEnd && p.r.offset == old(p.r.offset) + uint32(len(s)) + 1 && byteAt(p, old(p.r.offset) + uint32(len(s))) == 0 && forall(k, uint32, k < uint32(len(s)) ==> byteAt(p, old(p.r.offset) + k) >= 1 && byteAt(p, old(p.r.offset) + k) <= 0x7f)
+//@   ensures scanned: forall(k, uint32, k < uint32(len(s)) ==> byteAt(p, old(p.r.offset) + k) >= 1 && byteAt(p, old(p.r.offset) + k) <= 0x7f)
+//@   ensures reject: res != parseResultOk ==> uint64(old(p.r.offset)) + uint64(len(s)) >= uint64(p.r.pkgEnd) || byteAt(p, old(p.r.offset) + uint32(len(s))) > 0x7f
 //@   loop 1 (for) invariant wfR(rd(p)) && sameStream(rd(p)) && p.r.pkgEnd == old(p.r.pkgEnd) && str.Len >= 0 && str.Len <= 0xffffffff && res == parseResultOk && uint64(p.r.offset) == uint64(old(p.r.offset)) + uint64(str.Len) && (str.Len > 0 ==> p.r.offset <= p.r.pkgEnd) && str.Data == ite(old(p.r.offset) >= p.r.pkgEnd, 0, dataptr(p.r.data) + uintptr(old(p.r.offset))) && forall(k, uint32, k < uint32(str.Len) ==> byteAt(p, old(p.r.offset) + k) >= 1 && byteAt(p, old(p.r.offset) + k) <= 0x7f)
 
 // opcodes: one byte, or 0x5b followed by a second byte (reported as 0xff + second byte); an
@@ -137,6 +139,8 @@ package aml
 //@   ensures two: res == parseResultOk && byteAt(p, old(p.r.offset)) == 0x5b ==> op == 0xff + uint16(byteAt(p, old(p.r.offset) + 1)) && p.r.offset == old(p.r.offset) + 2
 //@   ensures known: res == parseResultOk ==> old(p.r.offset) < p.r.pkgEnd
 //@   ensures real: res == parseResultOk ==> ite(op <= 0xff, opcodeMap[op], extendedOpcodeMap[op-0xff]) != badOpcode
+//@   ensures accept1: old(p.r.offset) < p.r.pkgEnd && byteAt(p, old(p.r.offset)) != 0x5b && opcodeMap[byteAt(p, old(p.r.offset))] != badOpcode ==> res == parseResultOk
+//@   ensures accept2: old(p.r.offset) < p.r.pkgEnd && old(p.r.offset) + 1 < p.r.pkgEnd && byteAt(p, old(p.r.offset)) == 0x5b && byteAt(p, old(p.r.offset) + 1) != 0 && extendedOpcodeMap[byteAt(p, old(p.r.offset) + 1)] != badOpcode ==> res == parseResultOk
 
 //@ func (p *Parser) peekNextOpcode() (op uint16, res parseResult)
 //@   property C11 C12
